@@ -4,8 +4,12 @@ proof:          lean/PdshVerif/Props/C08.lean about the model Dsh/Exit.lean (_ex
                 exec_destroy, the -S loop, main's mapping) against the specification Dsh/ExitSpec.lean
 correspondence: (a) the static _extract_rc of the real dsh.c on generated lines, (b) the real dsh() with real
                 threads against a scripted rcmd layer (harness/exit_harness.c), (c) the real exec_destroy of
-                execcmd.c on real children, (d) the scratch-built pdsh binary with -R exec and a helper command;
-                each vs `pdshmodel exit model <variant>`
+                execcmd.c on real children, (d) the scratch-built pdsh binary with -R exec and a helper command,
+                (k) -k: which statement ends the run and what has become of the siblings (transport event log / start and
+                term traces of real commands) vs the transition system Dsh/ExitKill.lean, (m) a real in-band transport
+                module next to exec in one run, (r) one real command line per refusal path of Dsh/ExitRefuse.lean;
+                each vs `pdshmodel exit model <variant>`; the errx / exit call sites of opt.c and main.c are enumerated
+                by a generated probe (harness/consts/exitsites.c) and tied to the model by theorems
 oracle:         ExitSpec.admissible (`pdshmodel exit spec`) on the real process exit status of (b) and (d)
 """
 import concurrent.futures
@@ -29,7 +33,11 @@ MANIFEST = dict(
          "status per target in every schedule; with the option model of C18: pdcp/rpdcp exit 0, every refusal exits 1; with the "
          "relay model of C05/C06 and the cbuf model of C13): the status marker is requested exactly with -S/-k, without -S/-k exit 0, refused "
          "arguments exit 1, -S = max of the remote codes raised to 254 (order independent), 0 iff every command ran "
-         "and succeeded, marker extraction, abnormal termination non-zero, -k any failure non-zero; each proved for "
+         "and succeeded, marker extraction, abnormal termination non-zero, -k any failure non-zero (also as a transition system "
+         "over poll-loop iterations, `_die_if_signalled`, the teardown test and `_fwd_signal`: every schedule ends with the status "
+         "mainExit gives, the failing target's teardown IS the exit, the siblings that are signalled are exactly those inside "
+         "their poll loop), every refusal path of main.c / opt.c / module loading / dsh()'s prologue exits 1 (enumeration tied "
+         "to the call sites of the tree under check by a generated probe); each proved for "
          "the repaired variant with a kernel-checked counterexample for the unchanged code where that is false; the "
          "repaired model refines the specification for both status channels, and end to end through the relay model "
          "for every chunking of every host's stdout. The "
@@ -545,7 +553,13 @@ def run(ctx):
                    "(parallel: failing one first / last; fanout 1); canceled targets next to every outcome; every kind of overdue command "
                    "(idle / chatty x dies / traps TERM and exits 0 / 255); the same classes through the real binary; marker lines with the "
                    "marker at every position x boundary codes; (e) the command string dsh() hands to the transport (status marker requested "
-                   "exactly with -S / -k); "
+                   "exactly with -S / -k, whatever the default transport is called); (k) -k: mid-stream death, teardown test for an "
+                   "in-band code / out-of-band code / out-of-band signal / connect failure / code 128 (no signal), the failing target "
+                   "first / middle / last, siblings running / completed / not started, on the scripted transport (event log) and "
+                   "through the real binary (start / term traces); (m) a real in-band transport module next to exec as default and "
+                   "as per-target prefix, one line longer than the relay buffer before the marker; (r) one or more real command "
+                   "lines per refusal path of the model (environment, option values, user names, usage, host words, target file, "
+                   "transport, module loading, program name, opt_verify, dsh()'s prologue) with a trace file for \"nothing contacted\"; "
                    "non-trivial = at least one target does not simply succeed (non-zero code, signal, failure, marker with "
                    "preceding text or later lines); distinct = distinct case text"}
     dist = {"xrc": 0, "xrc_with_marker": 0, "xd": 0, "dsh_domain": 0, "dsh_raw": 0, "cli": 0, "cli_refused": 0,
@@ -840,12 +854,16 @@ def run(ctx):
                      "remote shell report 128+s",
                      "stdout lines shorter than the 131072-byte cbuf (longer lines: C05)",
                      "glibc atoi = (int) strtol, strstr, Linux wait-status encoding as modelled in Base/CInt.lean, Dsh/Exit.lean",
-                     "under -k the generator places no output after a marker > 128 (the mid-stream check is time dependent)",
+                     "one marker line per target (with two, the exit status of a -k run depends on how the output is cut into "
+                     "poll-loop iterations: C08.kill_early_death_witness); in the -k scenarios failures are 400 ms apart from the "
+                     "siblings' own events, a mismatch is re-run once before it is reported",
                      "cancellation by ^C^Z (DSH_CANCELED) is modelled (witness theorem) but not driven on the real code"],
         trusted_base=["Lean 4.33 kernel", "axioms: propext, Classical.choice, Quot.sound at most (audited per theorem)",
                       "hand-written model Dsh/Exit.lean tied to dsh.c/execcmd.c/main.c by differential execution",
                       "Gen/Dsh.lean regenerated from /repo (RC_MAGIC, RC_FAILED)",
-                      "harness/exit_harness.c (scripted rcmd layer), exit_exec.c, exit_helper.c, vlib/, gcc, ASan/UBSan"],
+                      "harness/exit_harness.c (scripted rcmd layer with event log), exit_exec.c, exit_helper.c, exit_inband_mod.c "
+                      "(in-band transport module), harness/consts/exitsites.c (call-site probe: Gen/Exitsites.lean), "
+                      "vlib/exitkill.py exitmixed.py exitrefuse.py, gcc, ASan/UBSan"],
         checker_cmd="lake build PdshVerif.Props.C08 && #print axioms on every theorem of Props/C08.lean")
 
 
